@@ -10,7 +10,7 @@ from jaqalpaq.error import JaqalError
 
 @spec
 def wf_filler(v) -> bool:
-    return isinstance(v, LetFiller) and isinstance(v.override_dict, dict)
+    return isinstance(v, LetFiller) and isinstance(v.override_dict, dict) and isinstance(v.register_names, set)
 
 
 @spec
@@ -64,6 +64,8 @@ class VisitDefault:
 
 
 from contracts_subcircuits import wf_stmt
+from jaqalpaq.core.register import NamedQubit, Register
+from jaqalpaq.core.gatedef import AbstractGate
 
 
 @spec
@@ -81,6 +83,23 @@ def count_ok(v, x) -> bool:
 
 
 @spec
+def let_qubit_ok(v, q) -> bool:
+    """a qubit reference as LetFiller.visit_NamedQubit expects it (its precondition)"""
+    return (type_is(q, NamedQubit) and is_str(q._name)
+            and (isinstance(q._alias_from, Register) or isinstance(q._alias_from, Parameter)) and is_str(q._alias_from._name)
+            and (is_int(q._alias_index) or isinstance(q._alias_index, Parameter)
+                 or (type_is(q._alias_index, Constant) and (has_key(v.override_dict, q._alias_index._name) or is_int(q._alias_index._value)))))
+
+
+@spec
+def let_arg_ok(v, a) -> bool:
+    """gate arguments under this contract: numbers, lets with a numeric value (or overridden), macro parameters, qubit
+    references.  (A whole register as a gate argument goes through visit_Register, which is not under contract.)"""
+    return (is_int(a) or is_float(a) or type_is(a, Parameter) or let_qubit_ok(v, a)
+            or (type_is(a, Constant) and (has_key(v.override_dict, a._name) or is_int(a._value) or is_float(a._value))))
+
+
+@spec
 def wf_lstmt(v, o) -> bool:
     """statement trees whose loop and subcircuit counts are ints, lets with a value, or macro parameters"""
     if isinstance(o, LoopStatement):
@@ -88,7 +107,8 @@ def wf_lstmt(v, o) -> bool:
     if isinstance(o, BlockStatement):
         return (isinstance(o._statements, list) and is_bool(o._parallel) and is_bool(o._subcircuit) and count_ok(v, o._iterations)
                 and forall_range(len(o._statements), lambda k: wf_lstmt(v, o._statements[k])))
-    return isinstance(o, GateStatement)
+    return (type_is(o, GateStatement) and isinstance(o._parameters, dict) and isinstance(o._gate_def, AbstractGate)
+            and forall_range(dict_len(o._parameters), lambda j: let_arg_ok(v, dict_val_at(o._parameters, j))))
 
 
 @contract("core.algorithm.fill_in_let:LetFiller.visit_LoopStatement", props=["C05", "C11"])
@@ -128,20 +148,6 @@ class VisitBlock:
     raises_only = ("JaqalError",)
 
 
-@assumed("core.algorithm.fill_in_let:LetFiller.visit_GateStatement", props=["C05"])
-class VisitGateAssumed:
-    """Assumed here (argument substitution is covered by the bounded stand-in): emits a gate S-expression."""
-
-    def requires(self, gate):
-        return wf_filler(self) and isinstance(gate, GateStatement)
-
-    def ensures(self, gate, result):
-        return isinstance(result, list) and len(result) >= 2 and result[0] == "gate"
-
-    raises_only = ("JaqalError",)
-
-
-from jaqalpaq.core.register import NamedQubit, Register
 from jaqalpaq.core.algorithm.fill_in_let import RegisterVisitor
 
 
@@ -181,5 +187,30 @@ class LetVisitQubit:
                        and implies(type_is(qubit._alias_index, Constant), same(result[2], cval(self, qubit._alias_index)))
                        and implies(is_int(qubit._alias_index), same(result[2], qubit._alias_index))
                        and implies(isinstance(qubit._alias_index, Parameter), same(result[2], qubit._alias_index._name)))
+
+    raises_only = ("JaqalError",)
+
+
+@contract("core.algorithm.fill_in_let:LetFiller.visit_GateStatement", props=["C05", "C10"])
+class VisitGate:
+    """emits ["gate", name, args...] with one entry per argument, in order: a let constant becomes its value in
+    the chosen environment (override if given, else declared value), numbers and macro parameters - also one that
+    shadows an overridden let - are passed through unchanged, a qubit reference is re-expressed by name"""
+
+    def requires(self, gate):
+        return (wf_filler(self) and type_is(self, LetFiller) and isinstance(self.register_names, set) and wf_lstmt(self, gate) and type_is(gate, GateStatement))
+
+    def ensures_shape(self, gate, result):
+        return (isinstance(result, list) and len(result) == dict_len(gate._parameters) + 2 and result[0] == "gate"
+                and same(result[1], gate._gate_def._name))
+
+    def ensures_args(self, gate, result):
+        return forall_range(dict_len(gate._parameters), lambda j:
+                            implies(type_is(dict_val_at(gate._parameters, j), Constant), same(result[j + 2], cval(self, dict_val_at(gate._parameters, j))))
+                            and implies(not type_is(dict_val_at(gate._parameters, j), Constant) and not type_is(dict_val_at(gate._parameters, j), NamedQubit),
+                                        same(result[j + 2], dict_val_at(gate._parameters, j)))
+                            and implies(type_is(dict_val_at(gate._parameters, j), NamedQubit) and not (dict_val_at(gate._parameters, j)._name in self.register_names),
+                                        isinstance(result[j + 2], tuple) and len(result[j + 2]) == 3 and result[j + 2][0] == "array_item"
+                                        and result[j + 2][1] == dict_val_at(gate._parameters, j)._alias_from._name))
 
     raises_only = ("JaqalError",)
